@@ -1501,6 +1501,10 @@ def iter_rules(ctx):
                       'with a linear part present the iterator can be %s, which does not enumerate it' % (T.expr_str(T.strip_wrappers(lost[0]), 2)[:80] if lost else 'nothing recognised'), b.site())
         restr = sorted({x.item for x in rs.call_objs if x.item in ('take', 'skip', 'step_by', 'take_while', 'skip_while', 'nth')})
         ctx.check(not restr, R + '/%s/all-terms' % ty.lstrip('&').split('::')[-1], 'T-LOOPMUST', b.name, 'iterator drops terms: %s' % restr, b.site())
+        # every stored term is yielded: no keyed container filled without accumulation, no dedup, nothing taken out of the
+        # operand's vectors between the stored terms and the yielded items (a non-normalised operand may repeat a monomial)
+        lost = overwriting_loads(ctx, b, (1,))
+        ctx.check(not lost, R + '/%s/every-term-yielded' % ty.lstrip('&').split('::')[-1], 'T-BRANCHFX', b.name, 'a stored term may not be yielded: %s' % '; '.join(sorted({w for bb, w in lost})), b.site(lost[0][0]) if lost else b.site())
     b = ctx.F.one('&v1::Function', 'into_iter', trait='IntoIterator')
     if b is None: ctx.lost(R + '/Function', 'IntoIterator for &Function')
     else:
@@ -1514,7 +1518,7 @@ def iter_rules(ctx):
             okc = any('Constant' in a for a, f in T.expr_fields(ex)) and any(x[0] == 'call' and x[1] == 'empty' for x in T.expr_walk(ex))
         ctx.check(okc and len(empty) == 1, R + '/Function/constant-and-unset', 'T-BRANCHFX', b.name, 'Constant must yield ((), c) once and an unset oneof nothing', b.site())
     # Linear's iterator drops only zero coefficients; ids of linear terms become singleton id lists in Function / Quadratic iterators
-    ctx.floor(R, 12)
+    ctx.floor(R, 22)
 
 
 # =============================================================================== C02.keys
@@ -1889,7 +1893,17 @@ def overwriting_loads(ctx, b, params=(1,)):
         if verdict == 'merge' or c.args[0]['k'] not in ('copy', 'move'): continue
         sl = ctx.S.slice_operand(b, c.args[0])
         if set(params) & sl.params and (sl.locals & rs.locals): out.append((c.bb, 'terms are removed by %s (%s)' % (c.item, why)))
+    # elements taken out of a vector of the OPERAND itself (`self.terms.retain(..)`, remove, drain, truncate, clear, pop ...):
+    # whatever is put back afterwards, a non-normalised operand may hold more such terms than the code accounts for
+    for c in b.calls:
+        if c.item not in REMOVERS or not re.search(r'\b(Vec|VecDeque)::<', c.name) or not c.args or c.args[0]['k'] not in ('copy', 'move'): continue
+        fs, root, _ = T.access_path(b, c.args[0], transparent=T.TRANSPARENT_NOCLONE)
+        if root in params and fs:
+            out.append((c.bb, 'terms are taken out of the operand\'s %s by %s' % ('.'.join(f for a, f in fs) or 'vector', c.item)))
     return out
+
+
+REMOVERS = ('retain', 'retain_mut', 'remove', 'swap_remove', 'drain', 'truncate', 'clear', 'pop', 'split_off', 'extract_if')
 
 
 # ---- the threshold below which a coefficient is dropped -----------------------------------------
@@ -1994,7 +2008,7 @@ def exact_zero_targets(b):
     return out, other
 
 
-def kernel_rules(ctx):
+def kernel_rules(ctx, impls=()):
     """hand-written kernels: same-type additions merge every term of both operands; scalar multiplication
     scales every coefficient and has no shortcut except for a scalar that is exactly zero"""
     R = 'C02.kernel'
@@ -2010,6 +2024,16 @@ def kernel_rules(ctx):
     if b is None: ctx.lost(R + '/Quadratic+Quadratic', 'Add')
     else:
         ctx.fn(b); quad_merge_rule(ctx, b, R + '/Quadratic+Quadratic/merge')
+    # `X + scalar` keeps every term of X (only the constant changes); the same for any hand-written body that replaced a delegation
+    todo = [('v1::Linear', 'Add', 'f64'), ('v1::Quadratic', 'Add', 'f64')] + [t for t, nb in new_kernels(ctx, impls)]
+    for lhs, op, rhs in todo:
+        b = ctx.F.one(lhs, op.lower(), trait=op, targs=[rhs] if rhs else None)
+        if b is None: continue
+        ctx.fn(b)
+        ps = tuple(p for p, ty in ((1, lhs), (2, rhs)) if ty and ty != 'f64')
+        lost = overwriting_loads(ctx, b, ps)
+        rid = R + '/%s%s%s/every-term-kept' % (lhs.split('::')[-1], {'Add': '+', 'Sub': '-', 'Mul': '*', 'Neg': '-'}[op], (rhs or '').split('::')[-1])
+        ctx.check(not lost, rid.replace('&', 'ref-'), 'T-BRANCHFX', b.name, 'a term of an operand can be lost: %s' % '; '.join(sorted({w for bb, w in lost})), b.site(lost[0][0]) if lost else b.site())
     # what is dropped from a sum is dropped under a fixed machine-epsilon sized bound, never one derived from the operands
     for ty in ('v1::Linear', 'v1::Polynomial', 'v1::Quadratic'):
         b = ctx.F.one(ty, 'add', trait='Add', targs=[ty])
@@ -2056,7 +2080,7 @@ def kernel_rules(ctx):
         okz = bool(Ls) and T.must_pass(b, 0, return_blocks(b), via)
         ctx.check(okz, R + '/%s*f64/only-exact-zero-shortcut' % short, 'T-GUARD', b.name,
                   'the function is returned without scaling under %s, not only for a scalar that is exactly 0' % (other or 'some condition'), b.site())
-    ctx.floor(R, 26)
+    ctx.floor(R, 28)
 
 
 # =============================================================================== C02.sorted
@@ -2202,6 +2226,6 @@ def sum_rules(ctx):
 
 def check(ctx):
     impls = op_impls(ctx)
-    table_rules(ctx, impls); deleg_rules(ctx, impls); dispatch_rules(ctx); branches_rules(ctx, impls); iter_rules(ctx); keys_rules(ctx); kernel_rules(ctx)
+    table_rules(ctx, impls); deleg_rules(ctx, impls); dispatch_rules(ctx); branches_rules(ctx, impls); iter_rules(ctx); keys_rules(ctx); kernel_rules(ctx, impls)
     sorted_rules(ctx)
     sum_rules(ctx)
